@@ -338,4 +338,29 @@ example :
     VxfwInterpTree.runChildHasFocus (parseBody Gen.VxfwBodies.childHasFocus) 2 [] t = some ([2, 1, 0], true) ∧
     VxfwInterpTree.runChildHasFocus (parseBody Gen.VxfwBodies.childHasFocus) 9 [7] t = some ([7], false) := by decide +kernel
 
+/-- The regenerated body of `focusHandler.findPath` is the one the execution lemma is about. -/
+theorem find_path_body_as_expected : Gen.VxfwBodies.findPath = Lemmas.VxfwBodyExpected.findPath := by decide +kernel
+
+/-- **`focusHandler.findPath`, executed from its regenerated body (calling the executed body of `childHasFocus`), IS the model's
+    `findPath`**: `f.path = []`, `ok := f.childHasFocus(f.lastFrame)` (target-first chain appended), the root widget appended if the
+    root surface belongs to another widget or nothing was found, then the IN-PLACE reversal loop
+    `for i := 0; i < len/2; i++ { path[i], path[len-1-i] = path[len-1-i], path[i] }` — proved to be `List.reverse` for every length by
+    the invariant "the outer `i` positions at both ends hold the reversed list", with checked index expressions (never out of range) —
+    and `return ok`.  For every state (focused widget, root widget, last frame incl. the zero `Surface` before the first frame): the new
+    `f.path` and the returned bool are those of `Model.Vxfw.findPath`, the function `path_correct` / `path_is_drawn_chain` /
+    `key_routing_drawn` are about. -/
+theorem find_path_body_eq_model (s : St) :
+    VxfwInterpTree.runFindPath (parseBody Gen.VxfwBodies.findPath) (parseBody Gen.VxfwBodies.childHasFocus) s.focused s.root s.fhFrame =
+      some ((findPath s).1.path, (findPath s).2) := by
+  rw [find_path_body_as_expected, tree_bodies_as_expected.2.2, Lemmas.VxfwBodyTree.parse_fp, Lemmas.VxfwBodyTree.parse_ch]
+  exact Lemmas.VxfwBodyTree.fp_exec s
+
+/-- Non-vacuity: widget 5 focused, drawn at depth 3 under a root surface owned by widget 0 while the root widget is 7: the executed
+    `findPath` appends 7 and reverses five elements in place; an undrawn focus gives `[root]` and false. -/
+example :
+    let t : STree := .node 0 10 10 [(1, 1, 0, .node 1 5 5 [(0, 0, 0, .node 2 2 2 [(0, 0, 0, .node 5 1 1 [])])]), (5, 5, 1, .node 3 3 3 [])]
+    VxfwInterpTree.runFindPath (parseBody Gen.VxfwBodies.findPath) (parseBody Gen.VxfwBodies.childHasFocus) 5 7 (some t) = some ([7, 0, 1, 2, 5], true) ∧
+    VxfwInterpTree.runFindPath (parseBody Gen.VxfwBodies.findPath) (parseBody Gen.VxfwBodies.childHasFocus) 9 0 (some t) = some ([0], false) ∧
+    VxfwInterpTree.runFindPath (parseBody Gen.VxfwBodies.findPath) (parseBody Gen.VxfwBodies.childHasFocus) 9 0 none = some ([0], false) := by decide +kernel
+
 end VaxisModel.Props.C15Body
